@@ -1,7 +1,8 @@
 (* C08 — exported theorems only: each is closed by [exact] and followed by Print Assumptions. *)
 From Coq Require Import List ZArith Bool Permutation.
 From Verif Require Import C08.Model C08.Spec C08.Proofs C08.Proofs_Drift C08.Proofs_Fresh
-  C08.Proofs_Filter C08.Proofs_Main C08.Proofs_Table C08.Proofs_Witness.
+  C08.Proofs_Filter C08.Proofs_Main C08.Proofs_Table C08.Proofs_Float C08.Proofs_Bound
+  C08.Codec C08.Proofs_Codec C08.Proofs_Witness.
 Import ListNotations.
 Open Scope Z_scope.
 
@@ -78,6 +79,44 @@ Theorem c08_filter_sound : forall cfg ops nd p n m thr isAgg aggT aggD prodPod,
 Proof. exact filter_sound_complete. Qed.
 Print Assumptions c08_filter_sound.
 
+(* the float64 percentage test in exact arithmetic (K = 2^53): whatever passes
+   [pct_float e t <= thr] has  100 e / t  <  (thr + 1/2) * K^2 (K+1) / (K-1)^3 *)
+Theorem c08_pct_float_pass_bound : forall e t thr, 0 < e -> 0 < t -> pct_float e t <= thr ->
+  200 * ((K - 1) * (K - 1) * (K - 1)) * e < (2 * thr + 1) * (K * K * (K + 1)) * t.
+Proof. exact pct_float_pass_bound. Qed.
+Print Assumptions c08_pct_float_pass_bound.
+
+Theorem c08_pct_float_reject_bound : forall e t thr, 0 < e -> 0 < t -> thr < pct_float e t ->
+  (2 * thr + 1) * (K * K * (K - 1)) * t <= 200 * ((K + 1) * (K + 1) * (K + 1)) * e.
+Proof. exact pct_float_reject_bound. Qed.
+Print Assumptions c08_pct_float_reject_bound.
+
+(* every float64 rounding of the emulation is within relative 2^-53 *)
+Theorem c08_fl53_error : forall n d, 0 < n -> 0 < d ->
+  0 < fst (fl53 n d) /\ 0 < snd (fl53 n d)
+  /\ K * Z.abs (fst (fl53 n d) * d - n * snd (fl53 n d)) <= n * snd (fl53 n d).
+Proof. exact fl53_err. Qed.
+Print Assumptions c08_fl53_error.
+
+(* Filter passes only if, in every thresholded dimension, the from-scratch estimate plus the
+   incoming pod's estimate stays below (threshold + 1/2) % of the allocatable, up to the
+   float64 slack factor K^2 (K+1) / (K-1)^3 = 1 + 2^-51 *)
+Theorem c08_filter_pass_exact : forall cfg ops nd p n m thr isAgg aggT aggD prodPod,
+  alookup (nd_name nd) (run cfg ops) = Some n -> n_metric n = Some m ->
+  p_ds p = false ->
+  select_thresholds (node_profile cfg nd) (is_prod p) = (thr, isAgg, aggT, aggD, prodPod) ->
+  expiry_applies cfg m = false -> is_some (m_info m) = true ->
+  filter cfg (run cfg ops) nd p = 0 ->
+  forall i, (i < length thr)%nat -> nth i thr 0 <> 0 ->
+    let total := nth i (vadd (est_of m (rebuild cfg m (n_ut n) (n_pods n)) prodPod aggT aggD)
+                             (est_vec cfg p)) 0 in
+    let alloc := nth i (eff_alloc nd) 0 in
+    0 < alloc -> 0 < total ->
+    200 * ((K - 1) * (K - 1) * (K - 1)) * total
+      < (2 * nth i thr 0 + 1) * (K * K * (K + 1)) * alloc.
+Proof. exact filter_pass_exact. Qed.
+Print Assumptions c08_filter_pass_exact.
+
 (* the whole-node estimate in the words of the property: last reported usage plus, for every
    pod whose usage the report does not yet reflect, max(0, estimate - reported usage) *)
 Theorem c08_whole_node_estimate : forall cfg m ut pods u i,
@@ -86,6 +125,22 @@ Theorem c08_whole_node_estimate : forall cfg m ut pods u i,
   = nth i u 0 + fold_right Z.add 0 (map (fun p => nth i (node_delta_term m ut (snd p)) 0) pods).
 Proof. exact whole_node_estimate. Qed.
 Print Assumptions c08_whole_node_estimate.
+
+Theorem c08_aggregated_estimate : forall cfg m ut pods t d u i,
+  t <> 0 -> target_agg m t d = Some u -> (i < dims)%nat ->
+  nth i (est_of m (rebuild cfg m ut pods) false t d) 0
+  = nth i u 0 + fold_right Z.add 0 (map (fun p => nth i (node_delta_term m ut (snd p)) 0) pods).
+Proof. exact agg_estimate. Qed.
+Print Assumptions c08_aggregated_estimate.
+
+Theorem c08_prod_estimate : forall cfg m ut pods i,
+  (i < dims)%nat ->
+  nth i (est_of m (rebuild cfg m ut pods) true 0 0) 0
+  = nth i (s_prodUsage (base_sums cfg m)) 0
+    + fold_right Z.add 0 (map (fun p => nth i (prod_usage_term m (snd p)) 0) pods)
+    + fold_right Z.add 0 (map (fun p => nth i (prod_delta_term m ut (snd p)) 0) pods).
+Proof. exact prod_estimate. Qed.
+Print Assumptions c08_prod_estimate.
 
 Theorem c08_no_usage_estimate : forall cfg m ut pods t d i,
   t <> 0 -> target_agg m t d = None -> (i < dims)%nat ->
@@ -197,6 +252,20 @@ Theorem c08_reserve_unreserve_table : forall cfg now node p c node' uid',
 Proof. exact reserve_unreserve_table. Qed.
 Print Assumptions c08_reserve_unreserve_table.
 
+(* frames: events that do not name node k leave its whole entry (pods, report, sums) alone;
+   the entry (k, u) of the pod table is the one left by the last event that touched it *)
+Theorem c08_node_frame : forall cfg ops c k,
+  forallb (fun o => negb (involves o k)) ops = true ->
+  alookup k (fold_left (step cfg) ops c) = alookup k c.
+Proof. exact run_node_frame. Qed.
+Print Assumptions c08_node_frame.
+
+Theorem c08_table_frame : forall cfg ops c k u,
+  forallb (fun o => negb (touches o k u)) ops = true ->
+  pod_info (fold_left (step cfg) ops c) k u = pod_info c k u.
+Proof. exact run_table_frame. Qed.
+Print Assumptions c08_table_frame.
+
 (* ---- the decision procedure run on implementation observables ---- *)
 
 (* MAIN: on every history whose reports carry update times the property's decision procedure
@@ -206,15 +275,48 @@ Theorem c08_prop_code_model : forall cfg ops,
 Proof. exact prop_code_model. Qed.
 Print Assumptions c08_prop_code_model.
 
-Theorem c08_prop_code_sound : forall cfg ops obs,
-  prop_code cfg ops obs = 0 -> C08_holds cfg ops obs.
-Proof. exact prop_code_sound. Qed.
-Print Assumptions c08_prop_code_sound.
+(* the decision procedure decides the Prop *)
+Theorem c08_prop_code_spec : forall cfg ops obs,
+  prop_code cfg ops obs = 0 <-> C08_holds cfg ops obs.
+Proof. exact prop_code_spec. Qed.
+Print Assumptions c08_prop_code_spec.
 
 Theorem c08_holds_model : forall cfg ops,
   ops_timed ops = true -> C08_holds cfg ops (run_obs cfg [] ops).
 Proof. exact holds_model. Qed.
 Print Assumptions c08_holds_model.
+
+(* MAIN, on the wire: exactly what the driver evaluates (Extract.v extracts these definitions):
+   for every input whose reports carry update times, prop_case accepts run_case, and the
+   known-finding signature is not raised *)
+Theorem c08_prop_case_model : forall inp,
+  ops_timed (snd (decode inp)) = true -> prop_case inp (run_case inp) = 0.
+Proof. exact prop_case_model. Qed.
+Print Assumptions c08_prop_case_model.
+
+Theorem c08_finding_sig_model : forall inp,
+  ops_timed (snd (decode inp)) = true -> finding_sig inp (run_case inp) = 0.
+Proof. exact finding_sig_model. Qed.
+Print Assumptions c08_finding_sig_model.
+
+(* an implementation observable accepted by prop_case satisfies the property *)
+Theorem c08_prop_case_sound : forall inp obs,
+  prop_case inp obs = 0 ->
+  exists o, parse_obs (length (snd (decode inp))) obs = Some o
+            /\ C08_holds (fst (decode inp)) (snd (decode inp)) o.
+Proof. exact prop_case_sound. Qed.
+Print Assumptions c08_prop_case_sound.
+
+(* stream "float" (direct grid on filterNodeUsage / EstimatePod) *)
+Theorem c08_float_prop_case_model : forall inp, float_prop_case inp (float_run_case inp) = 0.
+Proof. exact float_prop_case_model. Qed.
+Print Assumptions c08_float_prop_case_model.
+
+Theorem c08_float_pct_case : forall e t thr obs,
+  float_prop_case [0; e; t; thr] obs = 0 ->
+  obs = [if (thr =? 0) || (t =? 0) then 0 else if pct_float e t <=? thr then 0 else 1].
+Proof. exact float_pct_case. Qed.
+Print Assumptions c08_float_pct_case.
 
 (* ---- non-vacuity ---- *)
 Example c08_ex_timed : ops_timed w_ops2 = true.
